@@ -8,6 +8,7 @@ import json
 import logging
 import os
 import sys
+from pathlib import Path
 
 from codebasin import CodeBase, __version__, config, finder, util
 
@@ -125,6 +126,12 @@ def _compute(args: argparse.Namespace):
     # order in which the file system enumerates directory entries.
     covarray = []
     for filename in sorted(codebase):
+        # Don't export symlinks if their target is in the code base.
+        # The target will be exported separately.
+        path = Path(filename)
+        if path.is_symlink() and path.resolve() in codebase:
+            continue
+
         relative_path = os.path.relpath(filename, start=source_dir)
 
         with open(filename, "rb") as f:
